@@ -112,16 +112,19 @@ class World:
             pos = pos[1:]
         env = {}
         defaults = A.param_defaults(fnode)
-        for name, d in defaults.items():
-            cv = A.const_value(d)
+        def conv(cv):
             if cv is None or isinstance(cv, (bool, str)):
-                env[name] = cv
-            elif isinstance(cv, (int, float)):
-                env[name] = to_poly(cv)
-            elif isinstance(cv, tuple) and not cv:
-                env[name] = ()
-            else:
-                env[name] = None
+                return cv
+            if isinstance(cv, (int, float)):
+                return to_poly(cv)
+            if isinstance(cv, tuple):
+                return tuple(conv(x) for x in cv)
+            if isinstance(cv, list):
+                return [conv(x) for x in cv]
+            return None
+
+        for name, d in defaults.items():
+            env[name] = conv(A.const_value(d))
         if len(args) > len(pos) and not a.vararg:
             raise Undecided(f"too many positional arguments for {getattr(fnode, 'name', '?')}")
         for n, v in zip(pos, args):
